@@ -13,7 +13,7 @@ def run(ctx):
     else:
         if not os.environ.get("VERIF_SKIP_MC"):  # developer switch used by the mutant self-tests
             r0 = ctx.model_check("state", "MC_WorldState", "MC_WorldState_cov.cfg", coverage=True, timeout=900)
-            ctx.check_coverage(r0, ["SetBalance", "SetValue", "DeleteValue", "InitContract", "SetBlock", "Deploy", "Accept", "Touch", "GetSnapshot", "Reset",
+            ctx.check_coverage(r0, ["SetBalance", "SetValue", "DeleteValue", "InitContract", "SetBlock", "Deploy", "Accept", "AddDeposit", "Withdraw", "WithdrawAll", "PaySteps", "Touch", "GetSnapshot", "Reset",
                                     "ClearCache", "Flush", "Reload"])
             # the full alphabet (block flag, contract deployment and acceptance) to bounded depth
             ctx.model_check("state", "MC_WorldState", "MC_WorldState_quick.cfg", constants={"MaxOps": ctx.pick(5, 7)},
@@ -29,6 +29,9 @@ def run(ctx):
         # directed: EVERY history of 6 calls over {SetBalance 0/1, GetSnapshot into slot 2, Reset to slot 1 (the empty state)
         # or slot 2} on one world state object: several resets between snapshots taken at different points, then emptying
         allb += ctx.behaviours("state", "Gen_WorldState", "Gen_WorldState_dir2.cfg", timeout=1800)
+        # directed: EVERY history of 5 calls over {InitContractAccount, AddDeposit, WithdrawDeposit, PaySteps (fee sharing),
+        # GetSnapshot, Reset}: the deposit object is updated in place after a snapshot was taken
+        allb += ctx.behaviours("state", "Gen_WorldState", "Gen_WorldState_dir3.cfg", timeout=1800)
         if not ctx.quick():
             allb += ctx.behaviours("state", "Gen_WorldState", "Gen_WorldState.cfg", constants={"MaxOps": 2, "Depth": 2,
                                    "Accts": '{"a", "b"}', "MaxSnaps": 1}, timeout=1800)
